@@ -126,6 +126,7 @@ fn session(p: &mut Prng, w: &mut World, pfx: &str, plan: &Plan, scripted: Option
         if round == 1 {
             w.bump("history.second-run-on-same-objects");
         }
+        let reused = round == 1;
     // A1-A3
         let r1 = w.exec(json!({"op":"sm2.kex.1","obj":oa,"out":s("m1.ra"),"rng":script(p, scripted.map(|x| x.2))}));
         let mut alive = class_of(&r1) == "Ok";
@@ -137,7 +138,7 @@ fn session(p: &mut Prng, w: &mut World, pfx: &str, plan: &Plan, scripted: Option
         }
         // B1-B9
         if alive {
-            let r2 = w.exec(json!({"op":"sm2.kex.2","obj":ob,"ra":s("m1.ra"),"ra_via":via_ra,"out_rb":s("m2.rb"),"out_sb":s("m2.sb"),"rng":script(p, scripted.map(|x| x.3))}));
+            let r2 = w.exec(json!({"op":"sm2.kex.2","obj":ob,"ra":s("m1.ra"),"ra_via":via_ra,"out_rb":s("m2.rb"),"out_sb":s("m2.sb"),"reused":reused,"rng":script(p, scripted.map(|x| x.3))}));
             alive = class_of(&r2) == "Ok";
         }
         if alive {
@@ -152,7 +153,7 @@ fn session(p: &mut Prng, w: &mut World, pfx: &str, plan: &Plan, scripted: Option
                 tamper_hash(p, w, &s("m2.sb"), plan.kind);
             }
             // A4-A10
-            let r3 = w.exec(json!({"op":"sm2.kex.3","obj":oa,"rb":s("m2.rb"),"rb_via":via_rb,"sb":s("m2.sb"),"out_sa":s("m3.sa")}));
+            let r3 = w.exec(json!({"op":"sm2.kex.3","obj":oa,"rb":s("m2.rb"),"rb_via":via_rb,"sb":s("m2.sb"),"out_sa":s("m3.sa"),"reused":reused}));
             alive = class_of(&r3) == "Ok";
         }
         if alive {
@@ -163,7 +164,7 @@ fn session(p: &mut Prng, w: &mut World, pfx: &str, plan: &Plan, scripted: Option
                 tamper_point(p, w, &s("b.store.ra"), plan.kind);
             }
             // B10
-            w.exec(json!({"op":"sm2.kex.4","obj":ob,"sa":s("m3.sa"),"ra":s("b.store.ra"),"ra_via":"struct"}));
+            w.exec(json!({"op":"sm2.kex.4","obj":ob,"sa":s("m3.sa"),"ra":s("b.store.ra"),"ra_via":"struct","reused":reused}));
         }
         w.exec(json!({"op":"sm2.kex.end","a":oa,"b":ob}));
     }
